@@ -1,6 +1,6 @@
 # Shared machinery for C03 (NTT), C04 (INTT), C05 (extendPol), C19 (object reuse): field-level symbolic execution of the real
 # constructor / NTT / INTT / NTT_iters / reversePermutation / extendPol / computeR / destructor, schedule parameters symbolic.
-import z3, ctypes, itertools
+import z3, ctypes, itertools, re
 from .. import core, smt, kern, fmode
 from ..interp import *
 from ..runner import Ob, ok, viol, inconc
@@ -436,3 +436,53 @@ def discover_states(ctx, s_, calls, max_depth=3, max_states=20):
         frontier = nxt
         if not frontier: break
     return [(h_, None) for h_ in order]
+
+
+# ---------------------------------------------------------------- bit-reversal helper (all index widths, not only the transform sizes in the bound)
+def ob_bitrev(ctx):
+    """the static helper BR(x, w) of ntt_goldilocks.cpp is loop-free bit manipulation: for every width w = 1..32 and every x < 2^w it must return
+       the w-bit reversal of x.  Decided bit-precisely for all x at once; this reaches transform sizes (2^17 .. 2^32) no executed class can."""
+    w = core.world(ctx.bdir, MODS); w.hooks = dict(w.base_hooks)
+    fn = '@_ZL2BRmm'
+    if fn not in w.funcs:
+        cands = [n for n, f in w.funcs.items() if re.search(r'(^@_ZL\d+|^@_Z\d*)\w*(BR|[Bb]it[Rr]ev)', n) and len(f.params) == 2]
+        if len(cands) != 1: return ok('no separate two-argument bit-reversal helper in the IR (nothing to decide here; the permutation is exercised by the transform classes)', sample=dict(part='bitrev', helper=None))
+        fn = cands[0]
+    x = z3.BitVec('brx', 64); nq = 0
+    for wd in range(1, 33):
+        w.reset(); w.hooks = dict(w.base_hooks); it = Interp(w)
+        try: r = it.call(fn, [x, wd])
+        except (Unsupported, Violation) as e: return inconc('bit-reversal helper at width %d: %s' % (wd, e))
+        if it.worklist: return inconc('bit-reversal helper forks on its argument (not the loop-free form this obligation handles)')
+        ref = z3.ZeroExt(64 - wd, z3.Concat(*[z3.Extract(i, i, x) for i in range(wd)])) if wd > 1 else z3.ZeroExt(63, z3.Extract(0, 0, x))
+        res = smt.prove_plain([z3.ULT(x, z3.BitVecVal(1 << wd, 64))] + list(it.pc) + [tobv(r, 64) != ref], timeout=30); nq += 1
+        if res.status == 'sat':
+            xv = res.model.eval(x, model_completion=True).as_long()
+            return confirm_bitrev(ctx, fn, wd, xv)
+        if res.status != 'unsat': return inconc('bit-reversal width %d: solver %s' % (wd, res.status))
+    return ok('BR(x, w) is the w-bit reversal of x for every w = 1..32 and every x < 2^w (%d bit-vector queries): the permutation index is right for every transform size up to 2^32' % nq, sample=dict(part='bitrev', widths='1..32', helper=fn))
+
+def confirm_bitrev(ctx, fn, wd, xv):
+    """a wrong permutation index shows in the transform of that size: native NTT of 2^wd points on a one-hot column compared with w^(j·k)"""
+    text = 'bit-reversal helper: BR(%#x, %d) is not the %d-bit reversal' % (xv, wd, wd)
+    if wd > 22: return inconc(text + '; the transform of 2^%d points is too large for a native confirmation run here' % wd)
+    lib = core.native(ctx.bdir, 'avx2'); n = 1 << wd; U = ctypes.c_uint64
+    def body():
+        sz = lib.gv_ntt_sizeof; sz.restype = ctypes.c_ulong
+        this = ctypes.create_string_buffer(sz() + 64)
+        lib.gv_ntt_construct(this, ctypes.c_ulong(n), ctypes.c_uint(4), ctypes.c_int(1))
+        bad = None
+        for j in sorted({1, xv % n, (n - 1)}):
+            src = (U * n)(); src[j] = 1; dst = (U * n)()
+            f = getattr(lib, NTT[1:]); f.restype = None
+            f(this, dst, src, U(n), U(1), None, U(3), U(1), ctypes.c_bool(False), ctypes.c_bool(False))
+            wn = pow(7, (P - 1) // n, P); wj = pow(wn, j, P); cur = 1
+            for k in range(n):
+                if dst[k] % P != cur: bad = (j, k, dst[k] % P, cur); break
+                cur = cur * wj % P
+            if bad: break
+        return bad
+    r = core.forked(body, timeout=600)
+    if r[0] != 'ok': return viol('ntt/bitrev', '%s; native NTT of %d points ended with %s %s' % (text, n, r[0], r[1]), replay=dict(event=['bitrev'], width=wd, x=xv))
+    if r[1]: return viol('ntt/bitrev', '%s; native NTT of %d points on the one-hot input e_%d: output[%d] = %d, the DFT gives %d' % ((text, n) + tuple(r[1])), replay=dict(event=['bitrev'], width=wd, x=xv))
+    return inconc(text + ', but the native transform of %d points on one-hot inputs is correct' % n)
